@@ -229,6 +229,29 @@ func sniff(b []byte) string {
 
 // ---------- tar ----------
 
+// rawTarTypeflags walks the 512-byte blocks of a tar stream and returns the type flag of every header, including
+// the extended headers archive/tar's reader folds into the entry that follows them
+func rawTarTypeflags(b []byte) []byte {
+	var flags []byte
+	for off := 0; off+512 <= len(b); {
+		h := b[off : off+512]
+		if bytes.Equal(h, make([]byte, 512)) {
+			break
+		}
+		flags = append(flags, h[156])
+		size := int64(0)
+		if h[124]&0x80 != 0 {
+			for _, c := range h[125:136] {
+				size = size<<8 | int64(c)
+			}
+		} else {
+			fmt.Sscanf(strings.TrimRight(strings.TrimSpace(string(h[124:136])), "\x00"), "%o", &size)
+		}
+		off += 512 + int((size+511)/512*512)
+	}
+	return flags
+}
+
 func tarFormatName(f tar.Format) string {
 	switch f {
 	case tar.FormatUSTAR:
@@ -767,6 +790,8 @@ func decodeDebLike(o *pkgObs, controlTgz, dataTar []byte, dataKind string) error
 	}
 	hasEnd, aligned = tarTrailer(plain)
 	o.Struct["data_tar_complete"] = hasEnd && aligned
+	// deb(5): "PAX extensions are not supported" - dpkg rejects a member of type 'x' or 'g'
+	o.Struct["data_tar_without_pax_headers"] = !bytes.ContainsAny(rawTarTypeflags(plain), "xg")
 	o.Payload = entries
 	for _, e := range entries {
 		o.Stamps = append(o.Stamps, stampObs{"data:" + e.Path, e.MTime})
